@@ -25,7 +25,7 @@ import (
 )
 
 type Step struct {
-	Op     string  `json:"op"`     // batch | disable | enable | advance
+	Op     string  `json:"op"`     // batch | disable | enable | advance | startchild
 	Faults [][]any `json:"faults"` // [[index(1-based), reason], ...]
 	I      int     `json:"i"`
 	Ms     int64   `json:"ms"`
@@ -72,6 +72,7 @@ type Line struct {
 	Orphans      int      `json:"orphans"`
 	Res          string   `json:"res"`
 	Pids         []string `json:"pids"`
+	Extra        int      `json:"extra"` // simple-one-for-one: running instances beyond the number that was started
 }
 
 // ---- the supervisor under test ----
@@ -191,6 +192,8 @@ func stype(t string) act.SupervisorType {
 		return act.SupervisorTypeAllForOne
 	case "rfo":
 		return act.SupervisorTypeRestForOne
+	case "sofo":
+		return act.SupervisorTypeSimpleOneForOne
 	}
 	return act.SupervisorTypeOneForOne
 }
@@ -226,7 +229,9 @@ func (r *Runner) Run(scn *Scenario) ([]Line, error) {
 	suffix := fmt.Sprintf("_%d_%d", os.Getpid()%1000, scn.ID)
 	spec := act.SupervisorSpec{Type: stype(scn.Type), DisableAutoShutdown: !scn.AutoShutdown, EnableHandleChild: true}
 	spec.Restart = act.SupervisorRestart{Strategy: sstrategy(scn.Strategy), Intensity: uint16(scn.Intensity), Period: uint16(scn.Period), KeepOrder: scn.KeepOrder}
-	for i := 1; i <= scn.N; i++ {
+	sofo := scn.Type == "sofo"
+	var born int32
+	for i := 1; i <= scn.N && !sofo; i++ {
 		i := i
 		label := fmt.Sprintf("c%d", i)
 		initFn := func(s *gated.Scripted) error {
@@ -240,6 +245,23 @@ func (r *Runner) Run(scn *Scenario) ([]Line, error) {
 			Name:        gen.Atom(label + suffix),
 			Significant: scn.Sig[i-1],
 			Factory:     gated.Factory(w.World, label, false, initFn),
+		})
+	}
+	if sofo {
+		// one spec; instances are numbered by birth (a restarted instance is a new number): the reference compares counts
+		spec.Children = append(spec.Children, act.SupervisorChildSpec{
+			Name: gen.Atom("c" + suffix),
+			Factory: func() gen.ProcessBehavior {
+				idx := int(atomic.AddInt32(&born, 1))
+				label := fmt.Sprintf("c%d", idx)
+				return &gated.Scripted{W: w.World, Label: label, InitFn: func(s *gated.Scripted) error {
+					w.mu.Lock()
+					w.pids[idx] = s.PID()
+					w.mu.Unlock()
+					w.Add(gated.Note{Who: label, Kind: "init"})
+					return nil
+				}}
+			},
 		})
 	}
 	sup := &gsup{spec: spec, w: w.World, dead: make(chan struct{})}
@@ -303,9 +325,39 @@ func (r *Runner) Run(scn *Scenario) ([]Line, error) {
 		}
 		return m
 	}
+	aliveIdx := func(m map[int]gen.PID) []int {
+		var out []int
+		for i, p := range m {
+			if _, err := r.Node.ProcessState(p); err == nil {
+				out = append(out, i)
+			}
+		}
+		sort.Ints(out)
+		return out
+	}
 	observe := func(ln *Line, before map[int]gen.PID, notesFrom int, faulted map[int]bool) {
 		cur := snapshotPids()
-		for i := 1; i <= scn.N; i++ {
+		if sofo {
+			// counts: how many instances run, how many of those that ran before are still the same process
+			now := aliveIdx(cur)
+			kept := 0
+			for _, i := range now {
+				if before != nil {
+					if p, ok := before[i]; ok && p == cur[i] {
+						kept++
+					}
+				}
+			}
+			for j := 1; j <= scn.N; j++ {
+				ln.Run = append(ln.Run, j <= len(now))
+				ln.Kept = append(ln.Kept, j <= kept)
+				ln.Pids = append(ln.Pids, "")
+			}
+			if len(now) > scn.N {
+				ln.Extra = len(now) - scn.N
+			}
+		}
+		for i := 1; i <= scn.N && !sofo; i++ {
 			p, ok := cur[i]
 			alive := false
 			if ok {
@@ -341,17 +393,38 @@ func (r *Runner) Run(scn *Scenario) ([]Line, error) {
 			}
 			switch x.Kind {
 			case "init":
-				ln.StartOrder = append(ln.StartOrder, i)
+				if !sofo {
+					ln.StartOrder = append(ln.StartOrder, i)
+				}
 			case "cterm":
 				if faulted[i] && !firstTerm[i] {
 					firstTerm[i] = true // the injected death itself
 					continue
 				}
-				ln.StopOrder = append(ln.StopOrder, i)
+				if !sofo {
+					ln.StopOrder = append(ln.StopOrder, i)
+				}
 			}
 		}
 	}
 
+	if sofo {
+		name := gen.Atom("c" + suffix)
+		for i := 0; i < scn.N; i++ {
+			d := doMsg{done: make(chan error, 1), fn: func(s *gsup) error { return s.StartChild(name) }}
+			if err := r.Node.Send(supPid, d); err != nil {
+				return nil, err
+			}
+			select {
+			case e := <-d.done:
+				if e != nil {
+					return nil, fmt.Errorf("StartChild: %w", e)
+				}
+			case <-time.After(2 * time.Second):
+				return nil, fmt.Errorf("StartChild hung")
+			}
+		}
+	}
 	quiesce()
 	cfg := Line{P: scn.ID, Ev: "cfg", N: scn.N, Type: scn.Type, Strategy: scn.Strategy, KeepOrder: scn.KeepOrder, AutoShutdown: scn.AutoShutdown,
 		Sig: scn.Sig, Intensity: scn.Intensity, Period: scn.Period}
@@ -370,10 +443,11 @@ func (r *Runner) Run(scn *Scenario) ([]Line, error) {
 		ln := Line{P: scn.ID, Ev: step.Op, I: step.I}
 		faulted := map[int]bool{}
 		termCount := map[string]int{}
-		for i := 1; i <= scn.N; i++ {
+		for i := range before {
 			l := fmt.Sprintf("c%d", i)
 			termCount[l] = w.Count(l, "term")
 		}
+		ordinal := aliveIdx(before)
 		switch step.Op {
 		case "advance":
 			atomic.AddInt64(&r.clock, step.Ms)
@@ -394,7 +468,15 @@ func (r *Runner) Run(scn *Scenario) ([]Line, error) {
 			}
 			for _, f := range step.Faults {
 				i := int(f[0].(float64))
+				ord := i
 				reason := f[1].(string)
+				if sofo {
+					// the i-th running instance (by birth) at the beginning of the step
+					if i < 1 || i > len(ordinal) {
+						continue
+					}
+					i = ordinal[i-1]
+				}
 				pid, ok := before[i]
 				if !ok {
 					continue
@@ -423,14 +505,37 @@ func (r *Runner) Run(scn *Scenario) ([]Line, error) {
 					time.Sleep(50 * time.Microsecond)
 				}
 				termCount[label] = w.Count(label, "term")
-				ln.Faults = append(ln.Faults, []any{i, normReason(reason)})
+				ln.Faults = append(ln.Faults, []any{ord, normReason(reason)})
 			}
 			close(h.release)
+		case "startchild":
+			if !supAlive() || !sofo {
+				continue
+			}
+			{
+				name := gen.Atom("c" + suffix)
+				d := doMsg{done: make(chan error, 1), fn: func(s *gsup) error { return s.StartChild(name) }}
+				if err := r.Node.Send(supPid, d); err == nil {
+					select {
+					case e := <-d.done:
+						if e != nil {
+							ln.Res = e.Error()
+						} else {
+							ln.Res = "ok"
+						}
+					case <-time.After(2 * time.Second):
+						ln.Res = "hung"
+					}
+				}
+			}
 		case "disable", "enable":
 			if !supAlive() {
 				continue
 			}
 			name := gen.Atom(fmt.Sprintf("c%d", step.I) + suffix)
+			if sofo {
+				name = gen.Atom("c" + suffix)
+			}
 			d := doMsg{done: make(chan error, 1)}
 			if step.Op == "disable" {
 				d.fn = func(s *gsup) error { return s.DisableChild(name) }
